@@ -195,6 +195,63 @@ def mixed_enum_membership(out):
     return n
 
 
+def equal_neighbours(out):
+    """strictness does not depend on the neighbours: two values that == identifies but that have different kinds (1, True, 1.0,
+    (1+0j); 0, False, 0.0, -0.0, 0j; '1') side by side in ONE container -- list, variadic and fixed tuple, set, mapping values, mapping
+    keys, dataclass fields -- in both orders.  The container is accepted exactly when each element is accepted alone, and each
+    element of the result is what that element gives alone (same class, same repr)."""
+    import typing as t
+    import pane
+    n = 0
+    vals = [0, 1, True, False, 1.0, 0.0, -0.0, (1 + 0j), 0j, '1', '', None, 2]
+
+    def alone(v, T):
+        try:
+            r = pane.from_data(v, T)
+            return ('ok', type(r).__name__, repr(r))
+        except pane.ConvertError:
+            return ('error',)
+        except Exception as e:
+            return ('escape', type(e).__name__)
+    with warnings.catch_warnings():
+        warnings.simplefilter('ignore')
+        for T in (int, float, bool, complex, str):
+            class Pair(pane.PaneBase, in_format=('struct', 'tuple')):
+                p: T
+                q: T
+            single = {i: alone(v, T) for i, v in enumerate(vals)}
+            for i, a in enumerate(vals):
+                for j, b in enumerate(vals):
+                    if i == j:
+                        continue
+                    shapes = [('list', t.List[T], [a, b], list), ('variadic tuple', t.Tuple[T, ...], [a, b], list), ('fixed tuple', t.Tuple[T, T], [a, b], list),
+                              ('mapping values', t.Dict[str, T], {'p': a, 'q': b}, lambda r: list(r.values())),
+                              ('dataclass fields', Pair, {'p': a, 'q': b}, lambda r: [r.p, r.q]), ('dataclass, positional', Pair, [a, b], lambda r: [r.p, r.q])]
+                    for label, TT, vv, elems in shapes:
+                        n += 1
+                        want_ok = single[i][0] == 'ok' and single[j][0] == 'ok'
+                        try:
+                            r = pane.from_data(vv, TT)
+                        except pane.ConvertError:
+                            if want_ok:
+                                out.violation(f'C02:equal-neighbours:{label}:refused', f'{label}: from_data({vv!r}, {TT!r}) is refused although each element is accepted as {T.__name__} alone',
+                                              {'target': repr(TT), 'value': repr(vv)})
+                            continue
+                        except Exception as e:
+                            out.violation(f'C02:equal-neighbours:{label}:{type(e).__name__}', f'{label}: from_data({vv!r}, {TT!r}) raised {type(e).__name__}: {str(e)[:120]}', {'target': repr(TT), 'value': repr(vv)})
+                            continue
+                        if not want_ok:
+                            bad = a if single[i][0] != 'ok' else b
+                            out.violation(f'C02:equal-neighbours:{label}', f'{label}: from_data({vv!r}, {TT!r}) = {r!r} is accepted, but {bad!r} ({type(bad).__name__}) is refused as {T.__name__} on its own: '
+                                          f'an element is never coerced because a neighbour that compares equal was accepted', {'target': repr(TT), 'value': repr(vv)})
+                            continue
+                        got = [('ok', type(x).__name__, repr(x)) for x in elems(r)]
+                        if got != [single[i], single[j]]:
+                            out.violation(f'C02:equal-neighbours:{label}:value', f'{label}: from_data({vv!r}, {TT!r}) = {r!r}; alone the elements give {single[i][2]} and {single[j][2]}',
+                                          {'target': repr(TT), 'value': repr(vv)})
+    return n
+
+
 def failed_calls_first():
     """a history of FAILED conversions through every entry point (strictness may not depend on what was attempted before)"""
     import io as _io
@@ -225,6 +282,7 @@ def run(ctx, out):
     out.evaluations += _famsm.struct_mapping_family(out, PROP)
     out.evaluations += mixed_enum_membership(out)
     out.evaluations += byteslike_never_elementwise(out)
+    out.evaluations += equal_neighbours(out)
     import families as _fam2
     out.evaluations += _fam2.scalar_subclass_family(out, PROP)
     import families, random as _random
